@@ -118,7 +118,7 @@ def handleAst (instrs sigs realBlocks out : Sexp)
     let blocks := ablocks.map (schedBlock p)
     let (mOut, mOk) := modelProgram (externErr p) blocks
     let ansOk := answersAgree p real
-    let agree := mOut == out && ansOk
+    let agree := agreeOut (externErr p) blocks mOut mOk out && ansOk
     let (specOk, tags) : Bool × List String := match out with
       | .list (.atom "ok" :: gs) =>
         if gs.length != blocks.length then (false, []) else
